@@ -79,3 +79,13 @@ package protocol
 //@   replay   protocol_read
 //@   witness  [b:48] streamAt(r, consumed(r) + $k)
 //@   props    C04 C05 C06
+
+// readMore (handshake.go): see crypto.readMore.
+//@ func readMore
+//@   requires conn != nil && n >= 0 && m >= 0 && n <= 1<<20 && m <= 1<<20 && len(buf) <= 1<<20
+//@   modifies consumed(conn), buf[__]
+//@   ensures  [enough] $r1 == nil ==> len($r0) >= n
+//@   ensures  [exact]  len($r0) == old(len(buf)) + (consumed(conn) - old(consumed(conn)))
+//@   ensures  [prefix] forall k int :: 0 <= k && k < old(len(buf)) ==> $r0[k] == old(buf[k])
+//@   ensures  [bytes]  forall k int :: old(len(buf)) <= k && k < len($r0) ==> $r0[k] == streamAt(conn, old(consumed(conn)) + k - old(len(buf)))
+//@   props    C07
